@@ -1512,6 +1512,23 @@ class BaseInterpreter(Generic[TContext, TEvent]):
             )
         registry[system_id] = actor
 
+    def _unregister_from_system(
+        self, actor: "BaseInterpreter[Any, Any]"
+    ) -> None:
+        """Drops every `system_id` under which `actor` is registered.
+
+        🌐 A stopped actor that stays in the registry remains addressable by
+        `system_id` and silently swallows events; `system.get_all()` keeps
+        listing it. Every path that stops an actor calls this.
+
+        Args:
+            actor (BaseInterpreter): The actor that is being stopped.
+        """
+        registry = self._system_registry()
+        for system_id, candidate in list(registry.items()):
+            if candidate is actor:
+                del registry[system_id]
+
     def _resolve_delay(self, spec: Any, event: Any) -> Optional[float]:
         """Resolves a delay specification to milliseconds.
 
